@@ -279,6 +279,8 @@ def install_real_mode():
         m = importlib.import_module(name)
         m.float = symx.sym_float
         m.int = symx.sym_int
+    from . import ufmath
+    importlib.import_module('bardolph.runtime.bardolph_math').math = ufmath.UFMath()
 
 
 def uninstall_real_mode():
@@ -288,6 +290,8 @@ def uninstall_real_mode():
         for b in ('float', 'int'):
             if b in m.__dict__:
                 delattr(m, b)
+    import math
+    importlib.import_module('bardolph.runtime.bardolph_math').math = math
 
 
 def configure(specs=DEFAULT_SPECS, clock='rec', output='rec', extra_settings=None,
